@@ -101,4 +101,110 @@ theorem trrRun_ok (frames : List TFrame) (H : Nat) (hH : ∀ f ∈ frames, f.hsi
 theorem tInit_inv (frames : List TFrame) (H : Nat) : TInv frames H tInit :=
   ⟨Or.inl rfl, by simp [tInit, tOffset]⟩
 
+/-- **no frame is withheld** once its header size has been learned: if frame `k` is completely visible,
+    two guard evaluations (header, data) yield it; its *own* data size is what is waited for. -/
+theorem trr_two_ticks_yield (frames : List TFrame) (H : Nat) (hH : ∀ f ∈ frames, f.hsize = H) (hpos : 0 < H)
+    (st : TSt) (hinv : TInv frames H st) (hl : st.headerSize = H) (hp : st.pending = none)
+    (f : TFrame) (hf : frames[st.k]? = some f) (size : Nat) (hs : tOffset frames (st.k + 1) ≤ size) :
+    TEv.yield st.k ∈ trrRun frames [size, size] st := by
+  have hb : st.bytesRead = tOffset frames st.k := by
+    have := hinv.2; rw [hp] at this; exact this
+  have hfH : f.hsize = H := hH f (List.mem_of_getElem? hf)
+  rw [tOffset_succ frames st.k f hf] at hs
+  have hne : ¬ (H = 0) := by omega
+  have hg1 : size ≥ st.bytesRead + H := by omega
+  have hg2 : size ≥ st.bytesRead + f.hsize + f.dsize := by omega
+  simp [trrRun, trrTick, hp, hl, hne, hg1, hf, hg2]
+
+/-- with a header already read, one evaluation suffices -/
+theorem trr_one_tick_yield (frames : List TFrame) (st : TSt) (d : Nat) (hp : st.pending = some d) (size : Nat)
+    (hs : st.bytesRead + d ≤ size) : TEv.yield st.k ∈ (trrTick frames size st).2 := by
+  have hg : size ≥ st.bytesRead + d := hs
+  simp [trrTick, hp, hg]
+
+/-! ### header bytes → header fields -/
+
+def enc32be (n : Nat) : List Nat := [n / 16777216 % 256, n / 65536 % 256, n / 256 % 256, n % 256]
+def enc32 (little : Bool) (n : Nat) : List Nat := if little then (enc32be n).reverse else enc32be n
+
+theorem enc32_length (little : Bool) (n : Nat) : (enc32 little n).length = 4 := by
+  cases little <;> simp [enc32, enc32be]
+
+theorem u32_enc32 (little : Bool) (n : Nat) (h : n < 4294967296) : u32 little (enc32 little n) = n := by
+  cases little <;> simp [u32, enc32, enc32be, u32be] <;> omega
+
+theorem s32_enc32 (little : Bool) (n : Nat) (h : n < 2147483648) : s32 little (enc32 little n) = (n : Int) := by
+  unfold s32
+  rw [u32_enc32 little n (by omega)]
+  simp [h]
+
+theorem ints32_enc (little : Bool) (ns : List Nat) (h : ∀ n ∈ ns, n < 2147483648) (rest : List Nat) :
+    ints32 little ns.length (ns.flatMap (enc32 little) ++ rest) = ns.map Int.ofNat := by
+  induction ns with
+  | nil => simp [ints32]
+  | cons n ns ih =>
+    have hl := enc32_length little n
+    simp only [List.flatMap_cons, List.length_cons, ints32, List.map_cons, List.append_assoc]
+    rw [List.take_append_of_le_length (by omega), List.take_of_length_le (by omega),
+      List.drop_append_of_le_length (by omega), List.drop_of_length_le (by omega), List.nil_append,
+      s32_enc32 little n (h n (by simp)), ih (fun m hm => h m (by simp [hm]))]
+    rfl
+
+theorem readN_append (a b : List Nat) (n : Nat) (hn : a.length = n) (hpos : 0 < n) :
+    readN (a ++ b) n = .ok (a, b) := by
+  have hne : (a ++ b).isEmpty = false := by
+    cases a with
+    | nil => simp at hn; omega
+    | cons x xs => simp
+  have h0 : ¬ (n = 0) := by omega
+  have hlt : ¬ ((a ++ b).length < n) := by simp; omega
+  simp only [readN, h0, hne, hlt, false_or, Bool.false_eq_true, if_false]
+  rw [← hn, List.take_left, List.drop_left]
+
+/-- the header bytes GROMACS writes: magic, (13, 12), version string, 13 ints, two reals -/
+def encHeader (little : Bool) (ns : List Nat) (reals : List Nat) : List Nat :=
+  enc32 little 1993 ++ ((enc32 little 13 ++ enc32 little 12) ++ (trrVersion ++ (ns.flatMap (enc32 little) ++ reals)))
+
+/-- **header bytes → header fields**: for either byte order and either precision, `read_trr_header`
+    applied to the bytes of a header returns its 13 integers unchanged, the byte order it was written
+    in, the precision, and consumes exactly 76 + 2·(4|8) bytes -/
+theorem trrHeader_encHeader (little dbl : Bool) (ns : List Nat) (hlen : ns.length = 13)
+    (hb : ∀ n ∈ ns, n < 2147483648) (hd : isDouble (ns.map Int.ofNat) = .ok dbl)
+    (reals : List Nat) (hr : reals.length = 2 * (if dbl then 8 else 4)) (rest : List Nat) :
+    trrHeader (encHeader little ns reals ++ rest)
+      = .ok ({ little := little, double := dbl, ints := ns.map Int.ofNat,
+               hlen := 76 + 2 * (if dbl then 8 else 4) }, rest) := by
+  have hmagic : (!(s32 false (enc32 little 1993) == 1993)) = little := by
+    cases little <;> decide
+  have h52 : (ns.flatMap (enc32 little)).length = 52 := by
+    have : ∀ l : List Nat, (l.flatMap (enc32 little)).length = 4 * l.length := by
+      intro l
+      induction l with
+      | nil => rfl
+      | cons x xs ih => simp [List.flatMap_cons, enc32_length, ih]; omega
+    rw [this, hlen]
+  have hints := ints32_enc little ns hb ([] : List Nat)
+  rw [List.append_nil, hlen] at hints
+  have hsl : s32 little ((enc32 little 13 ++ enc32 little 12).take 4) = 13 := by
+    rw [List.take_append_of_le_length (by rw [enc32_length]; omega),
+      List.take_of_length_le (by rw [enc32_length]; omega)]
+    exact s32_enc32 little 13 (by omega)
+  have hver : trrVersion.takeWhile (· ≠ 0) = trrVersion := by decide
+  have hrpos : 0 < 2 * (if dbl then 8 else 4) := by cases dbl <;> simp
+  unfold trrHeader encHeader
+  simp only [List.append_assoc]
+  rw [readN_append (enc32 little 1993) _ 4 (enc32_length _ _) (by omega)]
+  simp only [hmagic]
+  rw [← List.append_assoc (enc32 little 13) (enc32 little 12),
+    readN_append (enc32 little 13 ++ enc32 little 12) _ 8 (by simp [enc32_length]) (by omega)]
+  simp only [hsl]
+  have h12 : ((13 : Int) - 1).toNat = 12 := by decide
+  have hnn : ¬ ((13 : Int) - 1 < 0) := by decide
+  simp only [hnn, if_false, h12]
+  rw [readN_append trrVersion _ 12 (by decide) (by omega)]
+  simp only [hver, ne_eq, not_true_eq_false, if_false]
+  rw [readN_append (ns.flatMap (enc32 little)) _ 52 h52 (by omega)]
+  simp only [hints, hd]
+  rw [readN_append reals rest _ hr hrpos]
+
 end Infretis.Readers
